@@ -45,19 +45,23 @@ theorem find_fresh_entries {K V : Type} [DecidableEq K] (m : GoMap K V) (k : K) 
   · rfl
   · rw [hf] at h; cases h
 
-theorem set_fresh {K V : Type} [DecidableEq K] (m : GoMap K V) (k : K) (v : V) (h : m.find k = none) :
-    m.set k v = some ⟨(k, v) :: m.entries⟩ := by
+theorem set_fresh {K V : Type} [DecidableEq K] (m : GoMap K V) (k : K) (v : V) (h : m.find k = none) (hn : m.nonNil = true) :
+    m.set k v = some ⟨(k, v) :: m.entries, true⟩ := by
   unfold GoMap.set GoMap.delete
-  rw [filter_fresh _ _ (find_fresh_entries m k h)]
+  rw [if_pos hn]
+  simp only [filter_fresh _ _ (find_fresh_entries m k h), hn]
 
-theorem delete_cons_fresh {K V : Type} [DecidableEq K] (m : GoMap K V) (k : K) (v : V) (h : m.find k = none) :
-    GoMap.delete ⟨(k, v) :: m.entries⟩ k = m := by
+theorem delete_cons_fresh {K V : Type} [DecidableEq K] (m : GoMap K V) (k : K) (v : V) (h : m.find k = none) (hn : m.nonNil = true) :
+    GoMap.delete ⟨(k, v) :: m.entries, true⟩ k = m := by
   unfold GoMap.delete
   simp only [List.filter_cons, beq_self_eq_true, Bool.not_true, Bool.false_eq_true, if_false]
   rw [filter_fresh _ _ (find_fresh_entries m k h)]
+  cases m
+  simp only [] at hn
+  simp [hn]
 
-theorem find_cons {K V : Type} [DecidableEq K] (l : List (K × V)) (k k' : K) (v : V) :
-    GoMap.find ⟨(k, v) :: l⟩ k' = if k = k' then some v else GoMap.find ⟨l⟩ k' := by
+theorem find_cons {K V : Type} [DecidableEq K] (l : List (K × V)) (k k' : K) (v : V) (b : Bool) :
+    GoMap.find ⟨(k, v) :: l, b⟩ k' = if k = k' then some v else GoMap.find ⟨l, b⟩ k' := by
   unfold GoMap.find
   simp only [List.find?_cons]
   by_cases h : k = k'
@@ -74,6 +78,7 @@ structure RInv (r : componentRegistry) : Prop where
   unusedR : ∀ j, r.Components.len ≤ j → C04.B256.mem r.IsRelation j = false
   unusedT : ∀ j, r.Components.len ≤ j → j < 256 → r.Types.arr[j]? = some none
   ids : r.IDs.arr.size = r.Components.len
+  nonNil : r.Components.nonNil = true
 
 theorem mask_ext (a b : M256.Mask) (h : ∀ j, C04.B256.mem a j = C04.B256.mem b j) : a = b := by
   have w : ∀ k, k < 4 → C04.B256.wordOf a k = C04.B256.wordOf b k := by
@@ -113,7 +118,7 @@ theorem clear_noop (m : M256.Mask) (b : BitVec 8) (h : C04.B256.mem m b.toNat = 
 
 /-- the registry after registering the unknown type `tp` -/
 def regResult (isRel : GoAny → Bool) (r : componentRegistry) (tp : GoAny) : componentRegistry :=
-  { Components := ⟨(tp, BitVec.ofInt 8 r.Components.len) :: r.Components.entries⟩,
+  { Components := ⟨(tp, BitVec.ofInt 8 r.Components.len) :: r.Components.entries, true⟩,
     Types := { r.Types with arr := r.Types.arr.setIfInBounds r.Components.len tp },
     IDs := GoSlice.append r.IDs (BitVec.ofInt 8 r.Components.len),
     Used := r.Used.Set (BitVec.ofInt 8 r.Components.len) true,
@@ -129,7 +134,7 @@ theorem register_eval (isRel : GoAny → Bool) (r : componentRegistry) (I : RInv
   have hle : decide (tb ≤ (r.Components.len : Int)) = false := by simp; omega
   have hin : r.Components.len < r.Types.arr.size := by rw [I.types]; exact hn
   unfold componentRegistry.registerComponent regResult
-  simp only [hle, Bool.false_eq_true, if_false, bind, Option.bind, pure, set_fresh _ _ _ hf, GoSlice.set, id_toNat _ hn, hin, if_true]
+  simp only [hle, Bool.false_eq_true, if_false, bind, Option.bind, pure, set_fresh _ _ _ hf I.nonNil, GoSlice.set, id_toNat _ hn, hin, if_true]
   cases isRel tp <;> simp
 
 theorem register_limit (isRel : GoAny → Bool) (r : componentRegistry) (tp : GoAny) (tb : Int) (h : tb ≤ (r.Components.len : Int)) :
@@ -166,7 +171,7 @@ theorem register_spec (isRel : GoAny → Bool) (r : componentRegistry) (I : RInv
       · rw [if_neg hj]
     · simp only [if_true]
       rw [C04.B256.set_spec, hid]
-  refine ⟨⟨?_, ?_, ?_, ?_, ?_, ?_⟩, ?_, ?_, hU, hR⟩
+  refine ⟨⟨?_, ?_, ?_, ?_, ?_, ?_, rfl⟩, ?_, ?_, hU, hR⟩
   · simp [regResult, I.types]
   · rw [len_regResult]; omega
   · intro j hj
@@ -184,11 +189,16 @@ theorem register_spec (isRel : GoAny → Bool) (r : componentRegistry) (I : RInv
     exact I.unusedT j (by omega) hj2
   · rw [len_regResult]
     simp [regResult, GoSlice.append, I.ids]
-  · show GoMap.find ⟨_ :: _⟩ tp = _
+  · show GoMap.find ⟨_ :: _, true⟩ tp = _
     rw [find_cons, if_pos rfl]
   · intro tp' hne
-    show GoMap.find ⟨_ :: _⟩ tp' = _
+    show GoMap.find ⟨_ :: _, true⟩ tp' = _
     rw [find_cons, if_neg (fun hc => hne hc.symm)]
+    cases hc : r.Components
+    rename_i ent nn
+    have : nn = true := by have := I.nonNil; rw [hc] at this; exact this
+    subst this
+    rfl
 
 /-! ## ComponentID -/
 
@@ -259,7 +269,7 @@ theorem rollback_exact (isRel : GoAny → Bool) (r : componentRegistry) (I : RIn
   · unfold componentRegistry.unregisterLastComponent componentRegistry.ComponentType
     simp only [bind, Option.bind, pure, GoSlice.size, hlen, hid, GoSlice.get, hT, GoSlice.set, hin', if_true, hpre]
   · refine ⟨?_, ?_, rfl, ?_, ?_⟩
-    · exact delete_cons_fresh r.Components tp _ hf
+    · exact delete_cons_fresh r.Components tp _ hf I.nonNil
     · show ({ arr := (r.Types.arr.setIfInBounds r.Components.len tp).setIfInBounds r.Components.len none, cap := r.Types.cap } : GoSlice GoAny) = r.Types
       rw [Array.setIfInBounds_setIfInBounds, setIfInBounds_same _ _ _ (I.unusedT _ (Nat.le_refl _) hn)]
     · show (r.Used.Set _ true).Set _ false = r.Used
@@ -274,10 +284,10 @@ theorem rollback_exact (isRel : GoAny → Bool) (r : componentRegistry) (I : RIn
 /-! ## the empty registry, and the step on the model's counters -/
 
 theorem new_spec : ∃ r, newComponentRegistry = some r ∧ RInv r ∧ r.Components.len = 0 := by
-  have e1 : (default : GoMap GoAny (BitVec 8)).entries = [] := rfl
+  have e1 : (GoMap.empty : GoMap GoAny (BitVec 8)).entries = [] := rfl
   have e2 : (default : GoSlice (BitVec 8)).arr = #[] := rfl
   have e3 : (default : GoAny) = none := rfl
-  refine ⟨_, rfl, ⟨by simp, by simp [GoMap.len, e1], ?_, ?_, ?_, by simp [GoMap.len, e1, e2]⟩, by simp [GoMap.len, e1]⟩
+  refine ⟨_, rfl, ⟨by simp, by simp [GoMap.len, e1], ?_, ?_, ?_, by simp [GoMap.len, e1, e2], rfl⟩, by simp [GoMap.len, e1]⟩
   · intro j _; exact C04.B256.mem_default j
   · intro j _; exact C04.B256.mem_default j
   · intro j _ hj
